@@ -45,6 +45,10 @@ PROPS['C19'] = {'module': 'wide',
     'technique': 'TLC model check of BigInt against native integers and of the growth-rule lemma + TLC trace validation over BigInt of seeded optimal + - * on operand words 2..70 (results to 256 bits) and of Python integers up to 2^1000 stored into 1..52-bit formats',
     'level_text': 'The property lives on 53..256-bit quantities, beyond an exhaustive small world: TLC checks the limb arithmetic used by the judge against native integers and re-checks the exact/never-overflows lemma on all small format pairs; then every seeded event of the real code (extreme, near-extreme and random operand codes; scalars, arrays, expression chains; big Python integers through constructor/call/set_val/indexed assignment) is judged by TLC: result format = growth rule, value exact by limb comparison, no flag; stored integer = OVERFLOW(ROUND(v*2^n_frac)) with exact flags.',
     'level_note': _AR_NOTE + ' Sampling only (no exhaustive world at these widths); the dtype decision rules are not modelled as such.'}
+PROPS['C10'] = {'module': 'conv',
+    'technique': 'TLC exhaustive model check over all (source, destination) small format pairs, all codes, 10 modes (raw-shift-and-store = exact value quantized; preserved when representable) + replay of every pair through 11 conversion routes on the real code + TLC trace validation of seeded chains of up to 6 conversions on formats up to 52 bits',
+    'level_text': 'For every pair of formats with n_word<=W and every source code TLC checks that the implementation route (shift the raw code by the fraction-length difference, store raw with rounding) equals the exact source value quantized into the destination under the destination modes; every pair is executed on the real code by resize (sizes / dtype string), like=, like(), constructor from Fxp (sizes / dtype), call, set_val, equal(), element-wise and slice indexed assignment, for scalars, 1-D and 2-D arrays, and TLC judges destination format, shape, codes, value preservation and that the source is unchanged.',
+    'level_note': _AR_NOTE}
 
 NOT_APPLICABLE = {}
 
@@ -98,8 +102,8 @@ def default_account(chk, obs):
                     if fo[i] or fu[i] or fi[i]:
                         v = row['v'][i]
                         seen.add((row.get('s'), row.get('w'), row.get('f'), row.get('r'), row.get('o'), tuple(v['m']), v['e']))
-        elif k in ('arith', 'div', 'arithc', 'unary'):
-            cx = row.get('cx', [])
+        elif k in ('arith', 'div', 'arithc', 'unary', 'conv'):
+            cx = row.get('cx', row.get('cs', []))
             cy = row.get('cy', cx)
             ev += len(cx)
             ex, ey = _ext(row['x']), _ext(row.get('y', row['x']))
